@@ -7,6 +7,7 @@ mod enumgen;
 mod enumprops;
 mod foldprops;
 mod gen;
+mod lexprops;
 mod prng;
 mod ser;
 mod termprops;
@@ -57,6 +58,8 @@ fn main() {
         "C15" => enumprops::run_c15(&o),
         "C03" => foldprops::run_c03(&o),
         "C05F" => foldprops::run_c05fold(&o),
+        "C02" => lexprops::run_c02(&o),
+        "C05" => lexprops::run_c05(&o),
         _ => { eprintln!("unknown property {prop}"); std::process::exit(2); }
     };
     rep.write(&o.outdir).expect("write report");
